@@ -388,6 +388,33 @@ theorem psi_noncontent (g L : List Xml) (hn : (L.filterMap Xml.id?).Nodup) (hg :
           rw [this, (hg first (by simp)).2] at hc; cases hc
       simp only [c1, c2, Bool.false_eq_true, if_false]
 
+/-- an element that is not a member of the group is left alone -/
+theorem psi_outside (g L : List Xml) (hn : (L.filterMap Xml.id?).Nodup) (hg : ∀ y ∈ g, y ∈ L) :
+    ∀ x ∈ L, x ∉ g → psi g x = some x := by
+  intro x hx hxg
+  cases g with
+  | nil => rfl
+  | cons first rest =>
+    simp only [psi]
+    cases hxi : x.id? with
+    | none => rfl
+    | some i =>
+      have c1 : (rest.filterMap Xml.id?).contains i = false := by
+        rw [List.contains_eq_mem, decide_eq_false_iff_not]
+        intro hm
+        obtain ⟨r, hr, hri⟩ := List.mem_filterMap.1 hm
+        have := id_inj Xml.id? L hn x hx r (hg r (by simp [hr])) i hxi hri
+        exact hxg (by rw [this]; simp [hr])
+      have c2 : (some i == first.id?) = false := by
+        cases hfi : first.id? with
+        | none => rfl
+        | some j =>
+          simp only [beq_eq_false_iff_ne, ne_eq, Option.some.injEq]
+          intro e; subst e
+          have := id_inj Xml.id? L hn x hx first (hg first (by simp)) i hxi hfi
+          exact hxg (by rw [this]; simp)
+      simp only [c1, c2, Bool.false_eq_true, if_false]
+
 theorem filterMap_ids_sublist {β : Type} (ψ : Xml → Option Xml) (f : Xml → Option β) (hψ : ∀ x x', ψ x = some x' → f x' = f x) :
     ∀ (L : List Xml), ((L.filterMap ψ).filterMap f).Sublist (L.filterMap f) := by
   intro L
@@ -442,7 +469,7 @@ theorem applyGroup_step (L pre post : List Xml) (first : Xml) (rest : List Xml)
     (applyGroup L (first :: rest)).filter hasContent = pre ++ repL (first :: rest) ++ post ∧
     ((applyGroup L (first :: rest)).filterMap Xml.id?).Nodup ∧
     (∀ k ∈ applyGroup L (first :: rest), k ∈ L ∨ (merges (first :: rest) = true ∧ k = mergedOf (first :: rest))) ∧
-    (∀ P : Xml → Bool, TagOnly P → (∀ x ∈ L, P x = true → hasContent x = false) →
+    (∀ P : Xml → Bool, TagOnly P → (∀ x ∈ L, P x = true → merges (first :: rest) = true → x ∉ first :: rest) →
       (applyGroup L (first :: rest)).find? P = L.find? P) := by
   rw [applyGroup_eq]
   have hg : ∀ y ∈ first :: rest, y ∈ L ∧ hasContent y = true := by
@@ -483,7 +510,7 @@ theorem applyGroup_step (L pre post : List Xml) (first : Xml) (rest : List Xml)
       · cases hp; exact Or.inl hk0
     · intro P hP hPc
       apply find_filterMap
-      · intro x hx hPx; exact h0 x hx (hPc x hx hPx)
+      · intro x hx hPx; exact psi_outside (first :: rest) L hn (fun y hy => (hg y hy).1) x hx (hPc x hx hPx (by first | trivial | rfl | exact hm))
       · intro x _ hPx x' hp
         rw [hP x' x (psi_tag _ x x' hp)]; exact hPx
 
@@ -493,7 +520,7 @@ theorem fold_groups : ∀ (R : List (List Xml)) (L pre : List Xml),
     (R.foldl applyGroup L).filter hasContent = pre ++ (R.map repL).flatten ∧
     ((R.foldl applyGroup L).filterMap Xml.id?).Nodup ∧
     (∀ k ∈ R.foldl applyGroup L, k ∈ L ∨ ∃ g ∈ R, merges g = true ∧ k = mergedOf g) ∧
-    (∀ P : Xml → Bool, TagOnly P → (∀ x ∈ L, P x = true → hasContent x = false) →
+    (∀ P : Xml → Bool, TagOnly P → (∀ x ∈ L, P x = true → ∀ g ∈ R, merges g = true → x ∉ g) →
       (R.foldl applyGroup L).find? P = L.find? P) := by
   intro R
   induction R with
@@ -518,16 +545,16 @@ theorem fold_groups : ∀ (R : List (List Xml)) (L pre : List Xml),
         · exact Or.inr ⟨g, by simp [hg], hm, e⟩
       · intro P hP hPc
         simp only [List.foldl_cons]
-        rw [r4 P hP, s4 P hP hPc]
-        intro x hx hPx
-        rcases s3 x hx with h | ⟨_, e⟩
-        · exact hPc x h hPx
-        · -- the merged element carries the first's tag, and the first has content
-          have hfL : first ∈ L ∧ hasContent first = true := by
+        rw [r4 P hP, s4 P hP (fun x hx hPx hm => hPc x hx hPx (first :: rest) (by simp) hm)]
+        intro x hx hPx g hg hmg
+        rcases s3 x hx with h | ⟨hm1, e⟩
+        · exact hPc x h hPx g (by simp [hg]) hmg
+        · -- the merged element carries the first's tag, and the first is a member of its (merging) group
+          have hfL : first ∈ L := by
             have : first ∈ L.filter hasContent := by rw [hf']; simp
-            exact List.mem_filter.1 this
+            exact (List.mem_filter.1 this).1
           have : P first = true := by rw [← hP x first (by rw [e]; exact mergedOf_tag first rest)]; exact hPx
-          rw [hPc first hfL.1 this] at hfL; cases hfL.2
+          exact absurd (List.mem_cons_self ..) (hPc first hfL this (first :: rest) (by simp) hm1)
 
 /-! ## the key of a merged element -/
 
@@ -618,6 +645,13 @@ theorem gatherPr_elem (i : Nat) (p : Option Str) (t : QName) (m : NsMap) (a : Li
       (match ks.find? (fun k => k.tag? == some ⟨t.ns, t.name ++ lit "Pr"⟩) with
        | none => pure []
        | some pr => gatherFold pr.kids []) := rfl
+
+theorem key_tag_eq (cfg : PartCfg) (x y : Xml) (k : ElemKey) (hx : elemKey cfg x = .ok k) (hy : elemKey cfg y = .ok k)
+    (ex : x.isElem = true) (ey : y.isElem = true) : x.tag? = y.tag? := by
+  rw [elemKey_with] at hx hy
+  have h1 := elemKeyWith_tag cfg _ _ k hx
+  have h2 := elemKeyWith_tag cfg _ _ k hy
+  cases x <;> cases y <;> simp_all [Xml.isElem, Xml.tag?]
 
 theorem formatPr_nil (html : Bool) : formatPr html [] = [] := by
   cases html <;> simp [formatPr, renderedProps, groupKeys, sortStrs]
@@ -806,7 +840,7 @@ theorem mergeLevel_spec (cfg : PartCfg) (kids ks1 : List Xml) (hn : (kids.filter
       ks1.filter hasContent = (gs.map repL).flatten ∧
       (ks1.filterMap Xml.id?).Nodup ∧
       (∀ k ∈ ks1, k ∈ kids ∨ ∃ g ∈ gs, merges g = true ∧ k = mergedOf g) ∧
-      (∀ P : Xml → Bool, TagOnly P → (∀ x ∈ kids, P x = true → hasContent x = false) → ks1.find? P = kids.find? P) := by
+      (∀ P : Xml → Bool, TagOnly P → (∀ x ∈ kids, P x = true → ∀ g ∈ gs, merges g = true → x ∉ g) → ks1.find? P = kids.find? P) := by
   unfold mergeLevel at h
   obtain ⟨kc, hkc, h⟩ := bind_ok h
   have := pure_ok h; subst this
@@ -835,7 +869,7 @@ theorem merged_level (cfg : PartCfg) (kids ks1 : List Xml) (hn : (kids.filterMap
       ks1 = gs.foldl applyGroup kids ∧
       ks1.filter hasContent = (gs.map repL).flatten ∧
       (∀ k ∈ ks1, k ∈ kids ∨ ∃ g ∈ gs, merges g = true ∧ k = mergedOf g) ∧
-      (∀ P : Xml → Bool, TagOnly P → (∀ x ∈ kids, P x = true → hasContent x = false) → ks1.find? P = kids.find? P) ∧
+      (∀ P : Xml → Bool, TagOnly P → (∀ x ∈ kids, P x = true → isMergeable x = false) → ks1.find? P = kids.find? P) ∧
       Runs (keyOf cfg) (gs.map repL) ∧
       (∀ x ∈ (gs.map repL).flatten, elemKey cfg x = .ok (keyOf cfg x)) := by
   obtain ⟨gs, hr, hf, hall, hfold, f1, _, f3, f4⟩ := mergeLevel_spec cfg kids ks1 hn h
@@ -881,7 +915,28 @@ theorem merged_level (cfg : PartCfg) (kids ks1 : List Xml) (hn : (kids.filterMap
     | false =>
       simp only [repL, hmg, Bool.false_eq_true, if_false] at hxg
       exact hall x (List.mem_filter.2 (hsub _ hg x hxg))
-  exact ⟨gs, hr, hf, hall, hfold, f1, f3, f4, hruns', hok⟩
+  -- a child that is not mergeable is not a member of a merging group: members share the first's tag, hence its prefixed tag
+  have f4' : ∀ P : Xml → Bool, TagOnly P → (∀ x ∈ kids, P x = true → isMergeable x = false) → ks1.find? P = kids.find? P := by
+    intro P hP hnm
+    apply f4 P hP
+    intro x hx hPx g hg hmg hxg
+    obtain ⟨a, t, rfl, hom⟩ := runs_homog _ _ hr g hg
+    have hma : isMergeable a = true := by
+      unfold merges at hmg; simp only [Bool.and_eq_true] at hmg; exact hmg.2
+    have ha := hsub _ hg a (by simp)
+    have hx' := hsub _ hg x hxg
+    have ka := hall a (List.mem_filter.2 ha)
+    have kx := hall x (List.mem_filter.2 hx')
+    have hkey : keyOf cfg x = keyOf cfg a := by
+      rcases List.mem_cons.1 hxg with e | h
+      · rw [e]
+      · exact hom x h
+    rw [hkey] at kx
+    have htag := key_tag_eq cfg x a _ kx ka (hasContent_isElem x hx'.2) (hasContent_isElem a ha.2)
+    have hpt := hpc x hx'.1 a ha.1 htag
+    have : isMergeable x = true := by unfold isMergeable at hma ⊢; rw [hpt]; exact hma
+    rw [hnm x hx hPx] at this; cases this
+  exact ⟨gs, hr, hf, hall, hfold, f1, f3, f4', hruns', hok⟩
 
 /-- **merging the merged children again changes nothing** -/
 theorem mergeLevel_idem (cfg : PartCfg) (kids ks1 : List Xml) (hn : (kids.filterMap Xml.id?).Nodup)
